@@ -11,7 +11,7 @@ pub fn check() -> Check {
         rule: "per run: a seeded program over one family (condvar: 1-4 waiters/notifiers in any order relative to the waits; barrier: bound 0-3 reused by more threads than the bound; once: per-program and static Once cells and lazy statics raced by several threads, with yielding initialisers; park/unpark incl. several unparks before a park and spurious wake-ups chosen by the scheduler), a scheduling policy and a seed; oracle: lockstep powerset reference model (offered set at every decision, every result, final verdict) + leader-per-generation and initialiser-count monitors. Distinct = (program, chosen task sequence); non-trivial = at least one task switch",
         assumptions: &["reference models (harness/src/model.rs A.3-A.6) encode the std documentation; Condvar never wakes spuriously (Shuttle's documented choice)"],
         real_components: "real: shuttle-std Condvar/Barrier/Once/thread::park, shuttle lazy_static, shuttle-engine runtime; model only as oracle",
-        batches: |t: Tier| vec![Batch::new("condvar", t.pick(8000, 150000), 400), Batch::new("barrier", t.pick(5000, 80000), 400), Batch::new("once", t.pick(5000, 80000), 400), Batch::new("park", t.pick(6000, 100000), 400)],
+        batches: |t: Tier| vec![Batch::new("condvar", t.pick(8000, 150000), 400), Batch::new("cohorts", t.pick(8000, 150000), 400), Batch::new("barrier", t.pick(5000, 80000), 400), Batch::new("once", t.pick(5000, 80000), 400), Batch::new("park", t.pick(6000, 100000), 400)],
         run: |b, _i, seed, t| run_family(&FAM, b, seed, t),
         replay: |c| replay_family(&FAM, c),
         probes: &["condvar_wait_returned", "barrier_leader", "barrier_follower", "once_init_run", "park_returned", "spurious_wake_taken", "ending_deadlock"],
